@@ -100,6 +100,60 @@ def ctor_records_every_ref(ctx, rule):
                      input="P(x=bind(fn, src.param.v)) where fn raises Skip for the initial value; src.v = <valid> later -> p.x never updates")
 
 
+def inherited_default_revalidated(ctx, rule):
+    """Class creation: after inherited slots were merged, the default is validated again whenever the type
+    changed or a slot was overridden -- for every default other than None (0, '', [] and False included)."""
+    import itertools
+    from engine.absint import Interp, Obj, Unsupported, TOP
+    from engine.loader import AnalysisError
+    f = ctx.repo.func(P + "ParameterizedMetaclass.__param_inheritance")
+    cfg = ctx.facts.cfg(f)
+    vals = [n for n in cfg.live_nodes() for c in calls_in(n) if isinstance(c.func, ast.Attribute) and c.func.attr == "_validate"
+            and len(c.args) == 1 and norm(c.args[0]).endswith(".default")]
+    ctx.require(vals, "__param_inheritance no longer validates the default after merging the inherited slots")
+    vn = vals[0]
+    pname = norm([c for c in calls_in(vn) if isinstance(c.func, ast.Attribute) and c.func.attr == "_validate"][0].func.value)
+    tests = [(d, d.polarity) for d in cfg.dominating(vn) if d.kind == "br"]
+    flag_names = sorted({x.id for d, _ in tests for x in ast.walk(d.ast) if isinstance(x, ast.Name) and x.id != pname})
+    it = Interp(ctx.hier)
+    bad = []
+    n = 0
+    for kind in ("none", "falsy", "truthy"):
+        for flags in itertools.product([False, True], repeat=len(flag_names)):
+            d = None if kind == "none" else Obj("default_" + kind)
+            if kind == "falsy":
+                d.attrs["__bool__"] = False
+            env = dict(zip(flag_names, flags))
+            env[pname] = Obj("param", default=d)
+            try:
+                reached = all(it.truth(it.eval(t.ast, dict(env), f)) is pol for t, pol in tests)
+                res = [it.truth(it.eval(t.ast, dict(env), f)) for t, _ in tests]
+            except Unsupported as e:
+                raise AnalysisError("cannot evaluate the re-validation guard of __param_inheritance: %s -- %s cannot decide" % (e, rule))
+            if any(r is TOP for r in res):
+                raise AnalysisError("the re-validation guard of __param_inheritance depends on something the model does not know (%s) -- %s cannot decide" % (
+                    ", ".join(norm(t.ast) for t, _ in tests), rule))
+            n += 1
+            bad.append((kind, env, reached))
+    ctx.abstract_cases += n
+    table = {(k, tuple(sorted((a, b) for a, b in e.items() if a != pname))): r for k, e, r in bad}
+    problems = []
+    for (k, fl), r in table.items():
+        if k == "falsy" and table[("truthy", fl)] != r:
+            problems.append("a default that is falsy but not None (0, 0.0, '', [], False) is %s with %s while any other default is %s" % (
+                "validated" if r else "NOT validated", dict(fl), "validated" if table[("truthy", fl)] else "not validated"))
+        if k == "truthy" and any(v for _, v in fl) and not r and all(v for _, v in fl):
+            problems.append("a default is not validated although every re-validation trigger holds (%s)" % dict(fl))
+    if not any(r for (k, fl), r in table.items() if k == "truthy"):
+        problems.append("the default is never validated again")
+    if problems:
+        ctx.fail(rule, f, vn, "class creation: %s -- a subclass that overrides only the default inherits bounds it does not satisfy, and the class is created with an invalid default" % problems[0],
+                 key=f.qualname + "::revalidation-guard",
+                 input="class A(Parameterized): n = Integer(5, bounds=(1, 10));  class B(A): n = Integer(0)  -> must raise at class creation")
+    else:
+        ctx.ok(rule, f, vn, "guard `%s`: %d abstract cases, falsy non-None defaults are treated like any other default" % (" / ".join(norm(t.ast) for t, _ in tests), n))
+
+
 def syncing_set_replaced(ctx, rule):
     """_syncing must replace the syncing set by a fresh object and restore the saved one."""
 
